@@ -25,10 +25,10 @@ def lanelet(F, lid, y):
     return F.new(Lanelet, np.array([[0.0, y + 1], [10.0, y + 1]]), np.array([[0.0, y + 0.5], [10.0, y + 0.5]]), np.array([[0.0, y], [10.0, y]]), lid)
 
 
-def base_scenario(F):
+def base_scenario(F, lids=LIDS):
     sc = F.new(Scenario, 0.1)
     net = F.new(LaneletNetwork)
-    las = {lid: lanelet(F, lid, float(lid - 1)) for lid in LIDS}
+    las = {lid: lanelet(F, lid, float(lid - 1)) for lid in lids}
     for la in las.values():
         F.method(net, "add_lanelet", la)
     F.method(sc, "add_objects", net)
@@ -112,7 +112,10 @@ class AssignDynamic(AssignContract):
     budget_s = 400
 
     def build(self, F):
-        sc, net, las = base_scenario(F)
+        import os
+
+        # quick tier: one lanelet (every predicate valuation over two time steps); thorough tier: two lanelets
+        sc, net, las = base_scenario(F, LIDS if os.environ.get("VERIF_TIER") == "thorough" else (1,))
         sh = local_rect(F, "sh_")
         init = mk_initial_state(F, "init_", 0)
         states = [mk_ks_state(F, "s%d_" % i, i + 1) for i in range(1)]
